@@ -176,6 +176,11 @@ HUNKS = {
         ("replace",
          "func maps_rand() uint64 {\n\treturn rand()\n}",
          "func maps_rand() uint64 {\n\tif simrandOn != 0 && simInBubble() {\n\t\treturn simrand()\n\t}\n\treturn rand()\n}"),
+        # sync.Pool drops a quarter of the Puts at random in race builds
+        # (runtime.randn); inside a bubble the choice comes from the seeded stream
+        ("replace",
+         "func randn(n uint32) uint32 {\n\t// See https://lemire.me/blog/2016/06/27/a-fast-alternative-to-the-modulo-reduction/\n\treturn uint32((uint64(uint32(rand())) * uint64(n)) >> 32)\n}",
+         "func randn(n uint32) uint32 {\n\t// See https://lemire.me/blog/2016/06/27/a-fast-alternative-to-the-modulo-reduction/\n\tif simrandOn != 0 && simInBubble() {\n\t\treturn uint32((uint64(uint32(simrand())) * uint64(n)) >> 32)\n\t}\n\treturn uint32((uint64(uint32(rand())) * uint64(n)) >> 32)\n}"),
         ("append", RAND_APPEND),
     ],
     "runtime/synctest.go": [
